@@ -824,6 +824,16 @@ func (m *Model) apply(args []string, now time.Duration) mResult {
 		return m.applyJset(a)
 	case "jdel":
 		return m.applyJdel(a)
+	case "publish":
+		if len(a) != 2 {
+			return mResult{undef: true}
+		}
+		return res(func(v rv) error {
+			if v.T != ':' || v.N < 0 {
+				return fmt.Errorf("got %s want a receiver count", v.String())
+			}
+			return nil
+		}, false)
 	case "sethook", "setchan":
 		return m.applySetHook(cmd == "setchan", a, now)
 	case "delhook", "delchan":
